@@ -288,8 +288,8 @@ func wlReadBack(ctx context.Context, ndb dbapi.NodeDB, root node.Root, want [][2
 
 type wlStats struct {
 	served, notServed, logDrift, applies, accepted, rejected, already atomic.Int64
-	mu       sync.Mutex
-	declines map[string]int // "<same root?>/<empty r2?>: error text" -> count
+	mu                                                                sync.Mutex
+	declines                                                          map[string]int // "<same root?>/<empty r2?>: error text" -> count
 }
 
 func (st *wlStats) decline(msg string, same, empty bool) {
